@@ -179,6 +179,44 @@ def rand_hermitian(rng, nm, n_terms, max_len):
     return fsum(items)
 
 
+def hole_operators(rng, nm, same_spin_only):
+    """Hermitian operators written with annihilators LEFT of creators (hole picture), products that are not normal ordered,
+    with and without an explicit constant - as FermionOperators in the alternating numbering (nm modes)."""
+    modes = range(nm)
+    pairs = [(p, q) for p in modes for q in modes if p <= q and (not same_spin_only or p % 2 == q % 2)]
+    out = []
+    t = {pq: rng.choice([-2, -1, 1, 2]) for pq in pairs}
+    hop = []
+    for (p, q), c in t.items():
+        hop.append((c, ((p, 0), (q, 1))))
+        if p != q:
+            hop.append((c, ((q, 0), (p, 1))))
+    out.append(("hole-hopping", fsum(hop)))
+    out.append(("hole-hopping+constant", fsum(hop + [(rng.choice([-3, 2]), ())])))
+    out.append(("holes-as-a.adag", fsum([(rng.randint(1, 3), ((p, 0), (p, 1))) for p in modes])))
+    if nm >= 2:
+        nn = []
+        for p in modes:
+            for q in modes:
+                if p < q:
+                    c = rng.randint(1, 2)
+                    nn += [(c, ((p, 1), (p, 0), (q, 0), (q, 1))), (c, ((q, 0), (q, 1), (p, 1), (p, 0)))]
+        out.append(("n(1-n)+constant", fsum(nn + [(1, ())])))
+    one = fsum([(c, ((p, 1), (q, 0))) for (p, q), c in t.items()] + [(c, ((q, 1), (p, 0))) for (p, q), c in t.items() if p != q])
+    out.append(("one-body-squared", copy.deepcopy(one) * copy.deepcopy(one)))
+    return out
+
+
+def direct_encoder(cfg):
+    """the encoding's own function, by-passing the dispatcher fermion_to_qubit_mapping (alternating ordering only)"""
+    from tangelo.toolboxes.qubit_mappings import jordan_wigner, bravyi_kitaev, jkmn, symmetry_conserving_bravyi_kitaev
+    nm = cfg.nm
+    fn = {"JW": lambda f: jordan_wigner(f), "BK": lambda f: bravyi_kitaev(f, n_qubits=nm), "JKMN": lambda f: jkmn(f, n_qubits=nm),
+          "SCBK": lambda f: symmetry_conserving_bravyi_kitaev(f, n_spinorbitals=nm, n_electrons=cfg.ne, up_then_down=False,
+                                                             spin=cfg.spin)}[cfg.enc]
+    return lambda f: qubit_op_to_json(fn(copy.deepcopy(f)), cfg.n, M)
+
+
 def full_space_config(B, cfg, rng, quick):
     chk = B.chk
     nm = cfg.nm
@@ -255,10 +293,23 @@ def full_space_config(B, cfg, rng, quick):
         if im:
             B.rec(recs, cfg, "lin", {"class": "lin"}, fA=fop_json(fa), fB=fop_json(fb), fC=fop_json(fc), al=ring(al), be=ring(be),
                   iA=im[0], iB=im[1], iC=im[2])
+    # operators AS WRITTEN without normal ordering (hole picture, unordered products, explicit constants)
+    written = hole_operators(rng, nm, False)
+    for label, f in written:
+        ext(f, {"class": "as-written", "spelling": label})
+    # the encoding's own function (not through the dispatcher) must give the same representation
+    if not cfg.utd:
+        direct = direct_encoder(cfg)
+        for label, f in written[:3] + [("combination", rand_fop(rng, nm, 3, 3, const=True))]:
+            img = guarded(chk, cfg, {"class": "direct", "f": fop_json(f)}, lambda: direct(f))
+            if img is not None:
+                B.rec(recs, cfg, "ext", {"class": "direct", "spelling": label}, f=fop_json(f), img=img)
     # the spectral statement itself on sampled Hermitian operators
     n_spec = {1: 2, 2: 4, 3: 4, 4: 1 if quick else 4}.get(nm, 0)
-    for _ in range(n_spec):
-        f = rand_hermitian(rng, nm, rng.randint(1, 3), 3)
+    spec_ops = [rand_hermitian(rng, nm, rng.randint(1, 3), 3) for _ in range(n_spec)]
+    if n_spec:
+        spec_ops.append(written[1][1])          # hole hopping + constant, as written
+    for f in spec_ops:
         img = guarded(chk, cfg, {"class": "spec", "f": fop_json(f)}, lambda: cfg.encode(f))
         if img is not None:
             B.rec(recs, cfg, "spec", {"class": "spec"}, f=fop_json(f), img=img)
@@ -324,7 +375,29 @@ def scbk_config(B, cfg, rng, quick):
         if img is not None:
             B.rec(recs, cfg, "lin", {"class": "lin"}, fA=fop_json(FO(a)), fB=fop_json(FO(b)), fC=fop_json(fc), al=ring(al), be=ring(be),
                   iA=gimg[a], iB=gimg[b], iC=img)
+    # the same generators AS WRITTEN in the hole picture: a_q a+_p = delta_pq - a+_p a_q  (annihilator left of creator)
+    holes = gens if nm <= 4 else rng.sample(gens, 6 if quick else 18)
+    for g in holes:
+        (p, _), (q, _) = g
+        fc = FO(((q, 0), (p, 1)))
+        img = guarded(chk, cfg, {"class": "as-written", "f": fop_json(fc)}, lambda: cfg.encode(fc))
+        if img is not None and one is not None:
+            B.rec(recs, cfg, "lin", {"class": "as-written"}, fA=fop_json(FO((), 1.0)), fB=fop_json(FO(g)), fC=fop_json(fc),
+                  al=ring(1 if p == q else 0), be=ring(-1), iA=one, iB=gimg[g], iC=img)
+    written = hole_operators(rng, nm, True)
+    if not cfg.utd:
+        direct = direct_encoder(cfg)
+        for label, f in written[:2]:
+            im = guarded(chk, cfg, {"class": "direct", "f": fop_json(f)}, lambda: [cfg.encode(f), direct(f)])
+            if im:      # iC (direct function) = 1 * iA (dispatcher) + 0 * iB
+                B.rec(recs, cfg, "lin", {"class": "direct", "spelling": label}, fA=fop_json(f), fB=fop_json(f), fC=fop_json(f),
+                      al=ring(1), be=ring(0), iA=im[0], iB=im[0], iC=im[1])
     # direct spectrum test on the parity sector: Hermitian, N_alpha/N_beta-parity conserving operators
+    if nm <= 6:
+        for label, f in (written if nm <= 4 else rng.sample(written, 1 if quick else 3)):
+            img = guarded(chk, cfg, {"class": "spec", "f": fop_json(f)}, lambda: cfg.encode(f))
+            if img is not None:
+                B.rec(recs, cfg, "spec", {"class": "as-written", "spelling": label}, f=fop_json(f), img=img)
     n_spec = (2 if quick else 5) if nm <= 4 else ((1 if quick else 3) if nm <= 6 else 0)      # sector dimension 2^(n-2)
     for x in range(n_spec):
         items = []
@@ -585,6 +658,13 @@ def compression_config(B, rng, quick):
             def hcb():
                 return qubit_op_to_json(fermion_to_qubit_mapping(copy.deepcopy(H), "HCB"), nmo, M)
             aw = "-as-written" if "fjson" in ints else ""
+            if aw:      # the encoding's own functions, not through the dispatcher
+                def hcb_direct():
+                    from tangelo.toolboxes.qubit_mappings.hcb import hard_core_boson_operator, boson_to_qubit_mapping
+                    return qubit_op_to_json(boson_to_qubit_mapping(hard_core_boson_operator(copy.deepcopy(H))), nmo, M)
+                imgd = guarded(chk, cfg, {"class": "hcb" + aw, "ints": ints, "direct": True}, hcb_direct)
+                if imgd is not None:
+                    B.rec(recs, cfg, "hcb", {"class": "hcb" + aw, "ints": ints, "direct": True}, f=fj, img=imgd, nmo=nmo)
             img = guarded(chk, cfg, {"class": "hcb" + aw, "ints": ints}, hcb)
             if img is not None:
                 B.rec(recs, cfg, "hcb", {"class": "hcb" + aw, "ints": ints}, f=fj, img=img, nmo=nmo)
@@ -816,7 +896,7 @@ def replay(chk, rec):
                     hcb_history(c3, Cfg("HCB", 2 * ints["nmo"], False), ints, how["other"])
                     if c3.violations:
                         raise RuntimeError(c3.violations[0][1])
-                elif how["class"] == "hcb":
+                elif how["class"].startswith("hcb"):
                     from tangelo.toolboxes.qubit_mappings.mapping_transform import fermion_to_qubit_mapping
                     fermion_to_qubit_mapping(H, "HCB")
                 else:
